@@ -362,7 +362,42 @@ def timed_window_awaitables_shared(req):
                                                      'delivered_batches': repr(got)[:200]}}
 
 
-SCENARIOS = {'timed_window_awaitables_shared': timed_window_awaitables_shared,
+def tcp_handler_does_not_await(req):
+    """F29: the per-connection coroutine of from_tcp reads the next record without waiting for the consumers of the previous one
+    (it tests isawaitable() on the LIST _emit returns): with a slow asynchronous consumer several records are in flight at once."""
+    import asyncio
+    import socket
+    from streamz import Stream
+
+    async def main():
+        sock = socket.socket()
+        sock.bind(('127.0.0.1', 0))
+        port = sock.getsockname()[1]
+        sock.close()
+        src = Stream.from_tcp(port, asynchronous=True)
+        running, peak, done = [0], [0], []
+
+        async def consumer(x):
+            running[0] += 1
+            peak[0] = max(peak[0], running[0])
+            await asyncio.sleep(0.05)
+            running[0] -= 1
+            done.append(x)
+        src.sink(consumer)
+        src.start()
+        await asyncio.sleep(0.05)
+        reader, writer = await asyncio.open_connection('127.0.0.1', port)
+        writer.write(b'a\nb\nc\nd\n')
+        await writer.drain()
+        await asyncio.sleep(0.6)
+        writer.close()
+        src.stop()
+        return peak[0], done
+    peak, done = asyncio.run(main())
+    return {'clause_holds': peak <= 1 and len(done) == 4, 'observed': {'records_inside_the_consumer_at_once': peak, 'delivered': repr(done)}}
+
+
+SCENARIOS = {'timed_window_awaitables_shared': timed_window_awaitables_shared, 'tcp_handler_does_not_await': tcp_handler_does_not_await,
              'map_async_overtake': map_async_overtake, 'map_async_bound': map_async_bound,
              'zip_remove_upstream_stuck': zip_remove_upstream_stuck, 'source_restart_two_loops': source_restart_two_loops,
              'periodic_restart_two_loops': periodic_restart_two_loops,
